@@ -30,6 +30,7 @@ def main(argv):
     tier = "quick"
     runs = None
     tests = True
+    prop_override = None
     it = iter(argv[1:])
     for a in it:
         if a == "--from":
@@ -40,13 +41,15 @@ def main(argv):
             runs = next(it)
         elif a == "--no-tests":
             tests = False
+        elif a == "--prop":
+            prop_override = next(it)
     dest = os.path.join(VERIF, "seeded", sid)
     if src:
         os.makedirs(dest, exist_ok=True)
         for f in ("patch.diff", "demo.py", "meta.json"):
             shutil.copy(os.path.join(src, f), os.path.join(dest, f))
     meta = json.load(open(os.path.join(dest, "meta.json")))
-    prop = meta["property"]
+    prop = prop_override or meta["property"]
     patch = os.path.join(dest, "patch.diff")
     d = tempfile.mkdtemp(prefix="symsim-seed-", dir="/dev/shm")
     clean = tempfile.mkdtemp(prefix="symsim-clean-", dir="/dev/shm")
@@ -64,9 +67,13 @@ def main(argv):
             rc, out = sh(["/venv/bin/python", "-m", "pytest", "-q", "-p", "no:cacheprovider", "tests"], cwd=d, env=env)
             rec["baseline_tests_with_patch"] = out.strip().splitlines()[-1]
             print("tests with patch:", rec["baseline_tests_with_patch"])
-        rc1, out1 = sh(["/venv/bin/python", os.path.join(dest, "demo.py")], cwd=d, env=env, timeout=600)
+        # demonstrations may locate the library relative to themselves
+        for t in (d, clean):
+            os.makedirs(os.path.join(t, "_seed"), exist_ok=True)
+            shutil.copy(os.path.join(dest, "demo.py"), os.path.join(t, "_seed", "demo.py"))
+        rc1, out1 = sh(["/venv/bin/python", os.path.join(d, "_seed", "demo.py")], cwd=d, env=env, timeout=600)
         envc = dict(env, PYTHONPATH=clean)
-        rc0, out0 = sh(["/venv/bin/python", os.path.join(dest, "demo.py")], cwd=clean, env=envc, timeout=600)
+        rc0, out0 = sh(["/venv/bin/python", os.path.join(clean, "_seed", "demo.py")], cwd=clean, env=envc, timeout=600)
         rec["demo_with_patch_exit"] = rc1
         rec["demo_without_patch_exit"] = rc0
         print(f"demo: with patch exit {rc1}, without exit {rc0}")
@@ -83,7 +90,10 @@ def main(argv):
             "exit": rc, "wall_s": round(dt, 1), "summary": lines[:4],
         })
         status = {0: "MISSED", 1: "CAUGHT", 2: "HARNESS-ERROR"}.get(rc, f"exit{rc}")
-        rec["status"] = status if rec.get("status") != "CAUGHT" else "CAUGHT"
+        if prop == meta["property"]:
+            rec["status"] = status if rec.get("status") != "CAUGHT" else "CAUGHT"
+        else:
+            rec.setdefault("other_properties", {})[prop] = status
         print(f"{status} {prop} {sid} ({tier}, {dt:.0f}s)")
         for ln in lines[:4]:
             print("   ", ln[:300])
